@@ -254,8 +254,10 @@ class SArr(metaclass=_NdarrayMeta):
     def copy(self, order="C"):
         return SArr(self.cells, self.dtype, self.shape)
 
-    def astype(self, dt, copy=True):
+    def astype(self, dt, copy=True, **kw):
         dt = rnp.dtype(_np_dtype(dt))
+        if not copy and dt == self.dtype:
+            return self          # numpy returns the array itself when no conversion is needed
         return SArr([wrap_cell(c, dt) for c in self.cells], dt, self.shape)
 
     def reshape(self, *shape):
@@ -286,11 +288,19 @@ class SArr(metaclass=_NdarrayMeta):
         return SArr(None, self.dtype, newshape, buf=self.buf, idx=idx)
 
     def tolist(self):
+        """nested lists of PYTHON scalars (ints/floats/bools), as ndarray.tolist() does"""
+        def py(c):
+            if self.dtype == BOOLDT:
+                return c if is_conc(c) else SBool(c)
+            if is_conc(c) and isinstance(c, builtins.float):
+                return c
+            return SNum(cz(c), None)
+
         def rec(cells, shape):
             if not shape:
-                return cell_to_scalar(cells[0], self.dtype)
+                return py(cells[0])
             if len(shape) == 1:
-                return [cell_to_scalar(c, self.dtype) for c in cells]
+                return [py(c) for c in cells]
             step = _prod(shape[1:])
             return [rec(cells[i * step:(i + 1) * step], shape[1:]) for i in range(shape[0])]
         return rec(self.cells, self.shape)
@@ -1266,12 +1276,68 @@ def zeros_like(a, dtype=None):
     return zeros(a.shape, dtype or a.dtype)
 
 
+def ones_like(a, dtype=None):
+    return ones(a.shape, dtype or a.dtype)
+
+
+class SLazyArr:
+    """np.arange(n, dtype) with a symbolic, unbounded length n: element i is wrap(i, dtype) unless overwritten by one of
+    the recorded stores; every access carries an explicit in-bounds decision (IndexError path)."""
+
+    def __init__(self, n, dtype):
+        self.n = n
+        self.dtype = rnp.dtype(dtype)
+        self.stores = []
+        self.ndim = 1
+
+    @property
+    def shape(self):
+        raise Unsupported("shape of a symbolic-length array")
+
+    def _bounds(self, k):
+        k = cnum(k)
+        if ENG.branch(z3.simplify(z3.Or(k < 0, k >= self.n))):
+            if ENG.branch(z3.simplify(z3.Or(k < -self.n, k >= self.n))):
+                raise IndexError("index out of bounds for axis 0 with symbolic size")
+            raise Unsupported("negative symbolic index")
+        return k
+
+    def __setitem__(self, key, value):
+        if not (isinstance(key, SArr) and key.dtype.kind in "iu"):
+            raise Unsupported("store into symbolic-length array with %r" % (key,))
+        vals = value.cells if isinstance(value, SArr) else [scalar_cell(value)] * key.size
+        for k, v in zip(key.cells, vals):
+            k = self._bounds(k)
+            self.stores.append((k, cnum(wrap_cell(v, self.dtype))))
+
+    def __getitem__(self, key):
+        if not (isinstance(key, SArr) and key.dtype.kind in "iu"):
+            raise Unsupported("read of symbolic-length array with %r" % (key,))
+        out = []
+        for k in key.cells:
+            k = self._bounds(k)
+            t = wrap_cell(k, self.dtype)
+            t = cnum(t)
+            for idx, val in self.stores:
+                t = z3.If(k == idx, val, t)
+            out.append(lift(t))
+        return SArr(out, self.dtype, key.shape)
+
+
 def arange(n, dtype=None, **kw):
     if isinstance(n, SNum) and n.is_real:
         c = n.concrete()
         if c is None:
-            raise Unsupported("arange with symbolic float length")
-        n = int(-(-c // 1))
+            ni = z3.ToInt(n.t)
+            if not ENG.branch(z3.simplify(z3.ToReal(ni) == n.t)):
+                raise Unsupported("arange with non-integral symbolic float length")
+            n = SNum(ni)
+        else:
+            n = int(-(-c // 1))
+    if isinstance(n, SNum) and n.concrete() is None:
+        iv = interval(n.t)
+        if iv is None or iv[1] - iv[0] > 64:
+            return SLazyArr(n.t, rnp.dtype(_np_dtype(dtype)) if dtype is not None else rnp.dtype("int64"))
     k = _as_index(n) if not isinstance(n, builtins.int) else n
     dt = rnp.dtype(_np_dtype(dtype)) if dtype is not None else rnp.dtype("int64")
     return SArr([wrap_cell(i, dt) for i in range(builtins.max(k, 0))], dt)
@@ -1434,6 +1500,7 @@ def build_module():
     m.zeros = zeros
     m.ones = ones
     m.zeros_like = zeros_like
+    m.ones_like = ones_like
     m.arange = arange
     m.indices = indices
     m.sqrt = sqrt
